@@ -284,7 +284,7 @@ func init() {
 	for _, p := range c15Patterns {
 		req = append(req, "pattern/"+p)
 	}
-	req = append(req, "pattern/long-forward", "pattern/long-shuffled", "pattern/long-far-bits-first", "reclaim-with-nonempty-words")
+	req = append(req, "pattern/long-forward", "pattern/long-shuffled", "pattern/long-far-bits-first", "reclaim-with-nonempty-words", "two-live-bitmaps")
 	register(&mon.Prop{
 		ID:    "C15",
 		Level: "exploration",
@@ -299,6 +299,8 @@ func init() {
 			return []mon.Family{
 				{Name: "patterns", N: len(c15Offsets) * len(c15Patterns) * c.Pick(100, 6000), Run: c15Patterned},
 				{Name: "long-reclaim", N: c.Pick(4, 64), Run: c15Long},
+				{Name: "two-live-bitmaps", N: c.Pick(300, 30000), Run: c15TwoLive},
+				{Name: "tail>=2^31-bits", N: c.Pick(0, 1) * b2i(c.Base() != "386"), Run: c15HugeTail}, // 1 GiB: thorough only, not in a 32-bit address space
 			}
 		},
 	})
@@ -493,4 +495,86 @@ func c15Long(w *mon.W, idx int) {
 	w.Sample(func() interface{} {
 		return mon.D{"initial_offset": o, "pattern": kind, "ops": c.nops, "final_Offset": c.tb.Offset, "reclaim_branch_executions": c.reclaims}
 	})
+}
+
+// c15TwoLive: two (sometimes three) TailBitmaps created one after the other and used INTERLEAVED by one
+// goroutine: what one of them does must not show in the other (no shared backing array).
+func c15TwoLive(w *mon.W, idx int) {
+	r := w.Rng
+	k := 2 + idx%2
+	var ms []*c15Mon
+	for i := 0; i < k; i++ {
+		ms = append(ms, c15New(w, c15Offsets[r.Intn(4)], false))
+	}
+	nops := 30 + r.Intn(200)
+	for op := 0; op < nops; op++ {
+		c := ms[r.Intn(k)]
+		var j int64
+		switch r.Intn(4) {
+		case 0:
+			j = c.tb.Offset + int64(r.Intn(64))
+		case 1:
+			j = c.tb.Offset + int64(r.Intn(700))
+		case 2:
+			j = c.tb.Offset
+			for b := int64(0); b < 64; b++ {
+				if c.m.bit(c.tb.Offset+b) == 0 {
+					j = c.tb.Offset + b
+					break
+				}
+			}
+		default:
+			if !c.Compact() {
+				return
+			}
+			continue
+		}
+		if !c.Set(j) {
+			return
+		}
+		if op%6 == 5 {
+			for _, x := range ms {
+				if !x.quiesce() {
+					return
+				}
+			}
+		}
+	}
+	for _, x := range ms {
+		if !x.quiesce() {
+			return
+		}
+		x.finish("two-live")
+	}
+	w.Bucket("two-live-bitmaps")
+	w.Distinct(gen.Hash64(0x2117e, uint64(idx), uint64(nops)))
+	w.Sample(func() interface{} { return mon.D{"what": "TailBitmaps used interleaved", "bitmaps": k, "ops": nops} })
+}
+
+// c15HugeTail (thorough only; about 1 GiB while it runs): one Set 2^31+5 bits beyond the offset makes
+// the stored tail longer than 2^31 bits; Get/Get1 at tail-relative indexes around 2^31 and 2^32.
+func c15HugeTail(w *mon.W, _ int) {
+	o := int64(1 << 40)
+	c := c15New(w, o, true)
+	far := []int64{o + 1<<32 + 5, o + 1<<31 + 5, o + 1<<31 - 1, o + 1<<30, o + 5, o + 64 + 6}
+	for _, j := range far {
+		w.Tick()
+		c.w.Op, c.w.A = "TailBitmap.Set(far)", j
+		c.note(fmt.Sprintf("Set(%d)", j))
+		c.tb.Set(j)
+		c.m.set(j)
+		w.Tick()
+	}
+	for _, j := range []int64{o + 5, o + 6, o + 64 + 6, o + 1<<30, o + 1<<30 + 1, o + 1<<31 - 1, o + 1<<31, o + 1<<31 + 5, o + 1<<31 + 6, o + 1<<32 + 4, o + 1<<32 + 5, o + 1<<32 + 6, o - 1, o - 64, 0} {
+		w.Op, w.A = "TailBitmap.Get1(huge tail)", j
+		e1 := c.m.bit(j)
+		if g1, g := c.tb.Get1(j), c.tb.Get(j); g1 != e1 || g != e1<<uint(j&63) {
+			w.Fail("Tail/Get-huge-tail", c.detail(mon.D{"j": j, "relative_to_offset": j - o, "Get1": g1, "Get": fmt.Sprintf("%#x", g), "expected_bit": e1}))
+			return
+		}
+		w.Eval(2)
+	}
+	w.Bucket("tail>=2^31-bits")
+	w.Distinct(gen.Hash64(0x7a11, 1))
+	w.Sample(func() interface{} { return mon.D{"what": "stored tail longer than 2^32 bits", "sets": far} })
 }
